@@ -64,7 +64,8 @@ def gen_commands(rng, prog, model, n_iters, with_reload=True):
         it = rng.randint(1, max(2, n_iters))
         k = rng.choice(['hold', 'release', 'set_hold_point',
                         'release_hold_point', 'pause', 'resume', 'stopcp',
-                        'set', 'trigger', 'remove', 'extent', 'reload'])
+                        'set', 'trigger', 'remove', 'extent', 'reload',
+                        'trigger_new', 'set_new', 'stop_flow', 'remove_flow'])
         slot = rng.randint(0, 1)
         ids = [prog.iid(*i) for i in rng.sample(
             valid, min(len(valid), rng.randint(1, 2)))]
@@ -87,6 +88,18 @@ def gen_commands(rng, prog, model, n_iters, with_reload=True):
                 'tasks': ids, 'flow': []}}
         elif k == 'remove':
             c = {'name': 'remove_tasks', 'kwargs': {'tasks': ids, 'flow': []}}
+        elif k == 'trigger_new':
+            c = {'name': 'force_trigger_tasks', 'kwargs': {
+                'tasks': ids, 'flow': ['new']}}
+        elif k == 'set_new':
+            c = {'name': 'set', 'kwargs': {
+                'tasks': ids, 'flow': ['new'], 'prerequisites': ['all']}}
+        elif k == 'stop_flow':
+            c = {'name': 'stop', 'kwargs': {
+                'mode': None, 'flow_num': rng.randint(1, 3)}}
+        elif k == 'remove_flow':
+            c = {'name': 'remove_tasks', 'kwargs': {
+                'tasks': ids, 'flow': [str(rng.randint(1, 2))]}}
         elif k == 'extent':
             c = {'name': 'set_graph_window_extent', 'kwargs': {
                 'n_edge_distance': rng.randint(0, 3)}}
@@ -134,6 +147,9 @@ class StoreWatch(Monitor):
         self.n_pub = 0
         self.n_applied = 0
         self.last_checksums = {}
+        self.serial = 0
+        self.proxies = {}
+        self.replaced = set()
 
     def attach(self, h, res, case):
         global _CUR
@@ -158,6 +174,12 @@ class StoreWatch(Monitor):
         data = dsm.data[dsm.workflow_id]
         self.res.sim.probe('pool_vs_store_compared')
         for itask in schd.pool.get_tasks():
+            if self.proxies.setdefault(itask.identity, itask) is not itask:
+                old = self.proxies[itask.identity]
+                if getattr(old, 'removed', False) and old.submit_num > 0:
+                    # removed by command with a job (or job preparation) live
+                    self.replaced.add(itask.identity)
+                self.proxies[itask.identity] = itask
             tp_id = dsm.id_.duplicate(itask.tokens).id
             tp = data[TASK_PROXIES].get(tp_id)
             if tp is None:
@@ -189,8 +211,18 @@ class StoreWatch(Monitor):
                     sorted(x[2] for x in sat_pool)):
                 diffs['prerequisites'] = [sat_store, sat_pool]
             if diffs:
+                preds = []
+                cyc, name = itask.identity.split('/')
+                if itask.identity in self.replaced and (
+                        set(diffs) <= {'state', 'is_held', 'outputs',
+                                       'is_queued', 'is_runahead'}):
+                    # an earlier proxy of this task was removed by command
+                    # while it had a job: the submit/kill/poll callbacks of
+                    # that job still write to the store under the same ID
+                    preds.append('orphaned_job_of_replaced_proxy')
                 self.res.violate('store_differs_from_pool', {
-                    'task': itask.identity, 'store_vs_pool': diffs})
+                    'task': itask.identity, 'store_vs_pool': diffs,
+                    'predicates': preds})
 
     # -- simulated client ----------------------------------------------------
     def on_publish(self, h, item):
